@@ -132,6 +132,22 @@ def _evaluate(col, p, shape, m, d, mm, dm, data_folded, tag):
             osf = Inference.optimally_scaled_sfs(model, data)
             if not np.allclose(np.asarray(osf.data)[~mm], (cstar * m)[~mm], rtol=1e-12, atol=0):
                 col.violation('C11:optimally_scaled_sfs:value', info, '')
+    # --- the data (or the model) handed over as a plain array of counts, no mask of its own: the other one's mask applies to both
+    if not data_folded:
+        keep = ~mm
+        if keep.any() and float(m[keep].sum()) > 0:
+            ex_c = float(d[keep].sum()) / float(m[keep].sum())
+            got_c = float(Inference.optimal_sfs_scaling(model, d.copy()))
+            col.tick(transitions=1)
+            if not abs(got_c - ex_c) <= 1e-12 * max(1.0, abs(ex_c)):
+                col.violation('C11:optimal_sfs_scaling:plain_array_data', info, {'got': got_c, 'exact': ex_c})
+        keep = ~dm
+        if keep.any() and float(m[keep].sum()) > 0:
+            ex_c = float(d[keep].sum()) / float(m[keep].sum())
+            got_c = float(Inference.optimal_sfs_scaling(m.copy(), data))
+            col.tick(transitions=1)
+            if not abs(got_c - ex_c) <= 1e-12 * max(1.0, abs(ex_c)):
+                col.violation('C11:optimal_sfs_scaling:plain_array_model', info, {'got': got_c, 'exact': ex_c})
     # --- inputs untouched
     now = [np.asarray(model.data), np.ma.getmaskarray(model), np.asarray(data.data), np.ma.getmaskarray(data)]
     if not all(np.array_equal(a, b, equal_nan=(a.dtype.kind == "f")) for a, b in zip(snap, now)) or model.folded or bool(data.folded) != data_folded:
